@@ -2,6 +2,7 @@
 import os, sys, json, time, re, subprocess
 import kvlib as K
 import kvmon as M
+import kvh2 as H2
 
 SENDK = {"send", "sendto", "sendoptto", "trysend", "trysendopt", "trysendrt", "trysendoptrt", "mksend"}
 RECVK = {"recv", "recvto", "tryrecv", "tryrecvrt", "drain", "mkrecv", "mkstream"}
@@ -57,6 +58,12 @@ PROPS = {
     "C18": dict(suites=["h1"], cone=cone_all, title="single-threaded reference"),
     "C19": dict(suites=["h1"], cone=mk_cone(kinds={"drain"}), need={"drain"}, title="drain_into"),
 }
+
+for _p in ("C01", "C02", "C03", "C05", "C08", "C09", "C10", "C11", "C12", "C13", "C14", "C15", "C16", "C19"):
+    PROPS[_p]["suites"] = ["h1", "h2"]
+PROPS["C06"] = dict(suites=["h1", "h2"], cone=mk_cone(fields={"w", "crash"}), title="progress")
+PROPS["C07"] = dict(suites=["h2"], cone=mk_cone(kinds=set()), title="memory-safe hand-off")
+PROPS["C17"] = dict(suites=["h2"], cone=mk_cone(kinds=set()), title="internal lock")
 
 H1_BUDGET = {"quick": (6000, 28), "thorough": (400000, 40)}
 
@@ -233,6 +240,67 @@ def run_h1(prop, tier, seed, report):
     return viols
 
 
+def h2_corpus():
+    """committed schedules that once exhibited a finding: replayed first on every run"""
+    d = os.path.join(K.ROOT, "corpus")
+    jobs = []
+    if os.path.isdir(d):
+        for f in sorted(os.listdir(d)):
+            if f.endswith(".prog"):
+                head, threads, specs = None, [], []
+                for l in open(os.path.join(d, f)):
+                    l = l.strip()
+                    if l.startswith("P "):
+                        head = l.split()
+                    elif l.startswith("T "):
+                        threads.append(l.split(" ", 2)[2])
+                    elif l.startswith("S "):
+                        specs.append(l[2:])
+                if head:
+                    jobs.append(("corpus-" + f, head[2], head[3], threads, specs))
+    return jobs
+
+
+def run_h2(prop, tier, seed, report):
+    stats, fails = H2.explore(prop, tier, seed)
+    # the corpus
+    cj = h2_corpus()
+    if cj:
+        kinds = H2.KINDS.get(prop, set())
+        for (pid, cap, spec, lines, threads, mv) in H2.run_batch(cj, 4):
+            stats["executions"] = stats.get("executions", 0) + 1
+            found = H2.judge(pid, cap, spec, lines, threads)
+            for tag in ("A", "M", "K", "O"):
+                if mv.get(tag, "").startswith("reject"):
+                    found.append((tag, mv[tag][7:]))
+            for (k, msg) in found:
+                if k in kinds:
+                    fails.append({"kind": k, "message": msg, "program": {"id": pid, "capacity": cap, "threads": threads},
+                                  "schedule": spec, "trace_tail": lines[-40:]})
+    report["h2"] = stats
+    viols, seen = [], set()
+    for f in fails:
+        key = (f["kind"], re.sub(r"\d+", "#", f["message"])[:80])
+        if key in seen:
+            continue
+        seen.add(key)
+        what = {"A": "the extracted signal-protocol model (Sig.sstep) rejects the crate's event trace",
+                "M": "the extracted lock model (Mutex.mstep) rejects the crate's event trace",
+                "K": "a call took the channel lock a number of times its kind does not allow (not one critical section)",
+                "O": "the results of the calls are not results of any operation-level interleaving of the atomic channel",
+                "HB": "happens-before race on the crate's own trace (vector-clock detector)",
+                "stuck": "an operation is blocked for ever although its counterpart finished",
+                "ledger": "a tagged value was not received / destroyed / handed back exactly once",
+                "corrupt": "a payload arrived corrupted"}[f["kind"]]
+        viols.append({"witness": True, "suite": "H2", "kind": f["kind"], "program": f["program"], "schedule": f["schedule"],
+                      "monitor": ["%s: %s" % (what, f["message"])], "trace_tail": f["trace_tail"],
+                      "header": "capacity %s, threads %s" % (f["program"]["capacity"], " || ".join(f["program"]["threads"])),
+                      "calls": ["schedule: " + f["schedule"]]})
+        if len(viols) >= 3:
+            break
+    return viols
+
+
 def run_check(prop, tier, seed):
     t0 = time.time()
     if prop not in PROPS:
@@ -276,9 +344,12 @@ def run_check(prop, tier, seed):
     # --- correspondence suites
     for s in spec["suites"]:
         name = {"h1": "correspondence H1: every call result, drop, wake-up and handed-back value of random and corpus call "
-                      "histories equal on the real crate and on the extracted Atomic.astep"}[s]
+                      "histories equal on the real crate and on the extracted Atomic.astep",
+                "h2": "correspondence H2: event traces of scheduled multi-threaded runs of the real crate accepted by the extracted "
+                      "Sig.sstep / Mutex.mstep, one critical section per call, outcomes explained by Atomic.astep; no happens-before "
+                      "race, no stuck thread, ledger exact"}[s]
         obligations.append(name)
-        sv = run_h1(prop, tier, seed, report) if s == "h1" else []
+        sv = run_h1(prop, tier, seed, report) if s == "h1" else run_h2(prop, tier, seed, report)
         if not sv:
             discharged.append(name)
         viols.extend(sv)
@@ -320,7 +391,16 @@ def run_check(prop, tier, seed):
         "h1_divergences_outside_cone": report.get("h1_divergences_outside_cone", 0),
         "theorems": thms,
         "build_cached": getattr(b, "cached", False),
+        "h2": {k: v for k, v in report.get("h2", {}).items()},
     }
+    if not h1:
+        h2s = report.get("h2", {})
+        cov["evaluations"] = h2s.get("executions", 0)
+        cov["distinct_nontrivial"] = h2s.get("distinct_traces", 0)
+        cov["rule"] = ("H2: program templates x schedules (sequential, single forced switches at every distinct (thread, source line), "
+                       "seeded random switching, held peers, spurious wake-ups, both parallelism settings); distinct = distinct event traces")
+        cov["samples"] = h2s.get("sample", [])
+        cov["traces_validated_against_impl"] = h2s.get("executions", 0)
     K.write_evidence(prop, tier, seed, t0, cov, len(real),
                      ["the Atomic model is tied to the code by differential testing (H1), which is exploration, not proof",
                       "single-threaded histories only in H1; fine-grained interleavings are covered by the protocol models and H2"],
@@ -329,7 +409,7 @@ def run_check(prop, tier, seed):
         # prefer a concrete witness
         real.sort(key=lambda v: (not v.get("witness"),))
         v = real[0]
-        path = K.write_replay(prop, "h1" if v.get("suite") == "H1" else "obligation", v)
+        path = K.write_replay(prop, {"H1": "h1", "H2": "h2"}.get(v.get("suite"), "obligation"), v)
         tail = "" if v.get("witness") else " no-failing-input-found"
         if v.get("witness"):
             print("failing input: %s | %s" % (v["header"], " ; ".join(v["calls"])))
@@ -343,14 +423,31 @@ def run_check(prop, tier, seed):
                 print("  impl : %s" % (v.get("implementation") or [""])[min(v.get("diverges_at_call") or 0, len(v.get("implementation") or [""]) - 1)] if v.get("implementation") else "")
         print("VIOLATION property=%s replay=%s%s" % (prop, path, tail))
         return 1
-    print("OK property=%s tier=%s obligations=%d discharged=%d h1_histories=%d wall=%.1fs" %
-          (prop, tier, len(obligations), len(discharged), h1.get("histories", 0), time.time() - t0))
+    print("OK property=%s tier=%s obligations=%d discharged=%d h1_histories=%d h2_executions=%d wall=%.1fs" %
+          (prop, tier, len(obligations), len(discharged), h1.get("histories", 0), report.get("h2", {}).get("executions", 0),
+           time.time() - t0))
     return 0
 
 
 def replay(prop, path):
     v = json.load(open(path))
     K.build_all()
+    if v.get("suite") == "H2":
+        for par in (4, 1):
+            res = H2.replay_exec(v["program"], v["schedule"], par)
+            for (pid, cap, spec, lines, threads, mv) in res:
+                found = H2.judge(pid, cap, spec, lines, threads)
+                for tag in ("A", "M", "K", "O"):
+                    if mv.get(tag, "").startswith("reject"):
+                        found.append((tag, mv[tag][7:]))
+                print("\n".join(lines[-60:]))
+                for k, m in found:
+                    print("%s: %s" % (k, m))
+                if any(k == v.get("kind") for k, _ in found):
+                    print("VIOLATION property=%s replay=%s" % (prop, path))
+                    return 1
+        print("replay no longer fails")
+        return 0
     if v.get("calls"):
         head, calls = v["header"], v["calls"]
         rc, out = K.run_impl(K.one_history_text(head, calls), timeout=30)
